@@ -2358,19 +2358,20 @@ impl Write for SummaryStream {
 
         /*
          * Look for the last complete pkg_summary(5) record, if there are none
-         * then go to the next input.
+         * then go to the next input.  The search is performed on bytes and
+         * only the complete records are decoded, as the input may have been
+         * split in the middle of a multi-byte character which will only be
+         * completed by a later write.
          */
-        let input_string = match std::str::from_utf8(&self.buf) {
-            Ok(s) => {
-                if let Some(last) = s.rfind("\n\n") {
-                    s.get(0..last + 2).unwrap()
-                } else {
-                    return Ok(input.len());
+        let input_string = match self.buf.windows(2).rposition(|w| w == b"\n\n")
+        {
+            Some(last) => match std::str::from_utf8(&self.buf[0..last + 2]) {
+                Ok(s) => s,
+                Err(e) => {
+                    return Err(io::Error::new(io::ErrorKind::InvalidData, e))
                 }
-            }
-            Err(e) => {
-                return Err(io::Error::new(io::ErrorKind::InvalidData, e))
-            }
+            },
+            None => return Ok(input.len()),
         };
 
         /*
